@@ -41,23 +41,26 @@ Section KnnProofs.
   Qed.
 
   (* ---- what the proofs need of a queue discipline ---- *)
-  Definition queue_ok (qpush : queue -> qnode -> queue) (qpop : queue -> option (qnode * queue)) : Prop :=
-    (forall q e, Permutation (qpush q e) (e :: q)) /\
-    (forall q, qpop q = None -> q = []) /\
-    (forall q m q', qpop q = Some (m, q') ->
-       Permutation q (m :: q') /\ Forall (fun y : qnode => (fst m <= fst y)%Z) q').
+  Definition queue_ok (qinv : queue -> Prop)
+      (qpush : queue -> qnode -> queue) (qpop : queue -> option (qnode * queue)) : Prop :=
+    qinv [] /\
+    (forall q e, qinv q -> qinv (qpush q e) /\ Permutation (qpush q e) (e :: q)) /\
+    (forall q, qinv q -> qpop q = None -> q = []) /\
+    (forall q m q', qinv q -> qpop q = Some (m, q') ->
+       qinv q' /\ Permutation q (m :: q') /\ Forall (fun y : qnode => (fst m <= fst y)%Z) q').
 
-  Lemma list_queue_ok : queue_ok list_push pop_min.
+  Lemma list_queue_ok : queue_ok (fun _ => True) list_push pop_min.
   Proof.
-    split; [|split].
-    - intros q e. unfold list_push. rewrite Permutation_app_comm. reflexivity.
-    - exact pop_min_none.
-    - exact pop_min_spec.
+    split; [exact Logic.I|split; [|split]].
+    - intros q e _. split; [exact Logic.I|]. unfold list_push. rewrite Permutation_app_comm. reflexivity.
+    - intros q _. apply pop_min_none.
+    - intros q m q' _ H. split; [exact Logic.I|]. now apply pop_min_spec.
   Qed.
 
+  Variable qinv : queue -> Prop.
   Variable qpush : queue -> qnode -> queue.
   Variable qpop : queue -> option (qnode * queue).
-  Hypothesis Hq : queue_ok qpush qpop.
+  Hypothesis Hq : queue_ok qinv qpush qpop.
 
   Notation knn_order := (knn_order d lb qpush qpop).
   Notation knn_loop := (knn_loop d lb qpush qpop).
@@ -65,11 +68,14 @@ Section KnnProofs.
   Notation push_items := (push_items (R := R) d qpush).
   Notation push_children := (push_children (I := I) lb qpush).
 
-  Lemma push_all_perm : forall es (q : queue), Permutation (push_all q es) (es ++ q).
+  Lemma push_all_perm : forall es (q : queue),
+    qinv q -> qinv (push_all q es) /\ Permutation (push_all q es) (es ++ q).
   Proof.
-    destruct Hq as [Hpush _].
-    induction es as [|e es IH]; intros q; cbn [Knn.push_all fold_left app]; [reflexivity|].
-    fold (push_all (qpush q e) es). rewrite IH, (Hpush q e). symmetry. apply Permutation_middle.
+    destruct Hq as (_ & Hpush & _).
+    induction es as [|e es IH]; intros q Hi; cbn [Knn.push_all fold_left app]; [split; [exact Hi|reflexivity]|].
+    fold (push_all (qpush q e) es). destruct (Hpush q e Hi) as [Hi' Hp].
+    destruct (IH _ Hi') as [Hi'' Hp']. split; [exact Hi''|].
+    rewrite Hp', Hp. symmetry. apply Permutation_middle.
   Qed.
 
   (* ---- sizes and item lists ---- *)
@@ -102,16 +108,16 @@ Section KnnProofs.
   Lemma list_sum_ones {X} (l : list X) : list_sum (map (fun _ => 1%nat) l) = length l.
   Proof. induction l as [|x r IH]; simpl; [reflexivity | now rewrite IH]. Qed.
 
-  Lemma qsize_push_items (q : queue) its : qsize (push_items q its) = (qsize q + length its)%nat.
+  Lemma qsize_push_items (q : queue) its : qinv q -> qsize (push_items q its) = (qsize q + length its)%nat.
   Proof.
-    unfold Knn.push_items. rewrite (qsize_perm _ _ (push_all_perm _ q)), qsize_app.
+    intros Hi. unfold Knn.push_items. rewrite (qsize_perm _ _ (proj2 (push_all_perm _ q Hi))), qsize_app.
     unfold qsize at 1. rewrite map_map. simpl. rewrite list_sum_ones. lia.
   Qed.
 
-  Lemma qsize_push_children (q : queue) cs :
+  Lemma qsize_push_children (q : queue) cs : qinv q ->
     S (qsize (push_children q cs)) = (qsize q + tsize (Node cs))%nat.
   Proof.
-    unfold Knn.push_children. rewrite (qsize_perm _ _ (push_all_perm _ q)), qsize_app, tsize_node.
+    intros Hi. unfold Knn.push_children. rewrite (qsize_perm _ _ (proj2 (push_all_perm _ q Hi))), qsize_app, tsize_node.
     unfold qsize at 1. rewrite map_map. cbn [snd esize]. lia.
   Qed.
 
@@ -121,26 +127,26 @@ Section KnnProofs.
   Lemma q_items_perm (a b : queue) : Permutation a b -> Permutation (q_items a) (q_items b).
   Proof. intros H. unfold q_items. now apply Permutation_flat_map. Qed.
 
-  Lemma q_items_push_items (q : queue) its :
+  Lemma q_items_push_items (q : queue) its : qinv q ->
     Permutation (q_items (push_items q its)) (q_items q ++ map snd its).
   Proof.
-    unfold Knn.push_items. rewrite (q_items_perm _ _ (push_all_perm _ q)), q_items_app.
+    intros Hi. unfold Knn.push_items. rewrite (q_items_perm _ _ (proj2 (push_all_perm _ q Hi))), q_items_app.
     rewrite Permutation_app_comm. apply Permutation_app_head. unfold q_items.
     induction its as [|x r IH]; [reflexivity|]. cbn [map flat_map snd under app]. now apply perm_skip.
   Qed.
 
-  Lemma q_items_push_children (q : queue) cs :
+  Lemma q_items_push_children (q : queue) cs : qinv q ->
     Permutation (q_items (push_children q cs)) (q_items q ++ items_of (Node cs)).
   Proof.
-    unfold Knn.push_children. rewrite (q_items_perm _ _ (push_all_perm _ q)), q_items_app, items_of_node.
+    intros Hi. unfold Knn.push_children. rewrite (q_items_perm _ _ (proj2 (push_all_perm _ q Hi))), q_items_app, items_of_node.
     rewrite Permutation_app_comm. apply Permutation_app_head. unfold q_items.
     induction cs as [|x r IH]; [reflexivity|]. cbn [map flat_map snd under]. now apply Permutation_app_head.
   Qed.
 
-  Lemma Forall_push_all (P : qnode -> Prop) (q : queue) es :
+  Lemma Forall_push_all (P : qnode -> Prop) (q : queue) es : qinv q ->
     Forall P q -> Forall P es -> Forall P (push_all q es).
   Proof.
-    intros H1 H2. eapply Permutation_Forall; [symmetry; apply push_all_perm|].
+    intros Hi H1 H2. eapply Permutation_Forall; [symmetry; apply (push_all_perm _ _ Hi)|].
     apply Forall_app. split; assumption.
   Qed.
 
@@ -173,14 +179,14 @@ Section KnnProofs.
   Definition dist_sorted (l : list (I * Z)) : Prop := StronglySorted (fun a b => (snd a <= snd b)%Z) l.
 
   Lemma knn_order_spec : forall fuel (q : queue),
-    Forall e_ok q -> (qsize q < fuel)%nat ->
+    qinv q -> Forall e_ok q -> (qsize q < fuel)%nat ->
     exists l, knn_order fuel q = Done l /\
               Permutation (map fst l) (q_items q) /\ emitted_ok l /\ dist_sorted l.
   Proof.
-    induction fuel as [|fuel IH]; intros q Hok Hf; [lia|].
-    destruct Hq as (_ & Hnone & Hpop).
+    induction fuel as [|fuel IH]; intros q Hi Hok Hf; [lia|].
+    destruct Hq as (_ & _ & Hnone & Hpop).
     cbn [Knn.knn_order]. destruct (qpop q) as [[[k e] q']|] eqn:E.
-    - destruct (Hpop _ _ _ E) as [Hp Hmin].
+    - destruct (Hpop _ _ _ Hi E) as (Hi' & Hp & Hmin).
       assert (Hok' : Forall e_ok ((k, e) :: q')) by (eapply Permutation_Forall; eauto).
       inversion Hok' as [|? ? He Hq']; subst.
       pose proof (qsize_perm _ _ Hp) as Hsz. rewrite qsize_cons in Hsz. cbn [snd] in Hsz.
@@ -188,7 +194,7 @@ Section KnnProofs.
       { unfold q_items. etransitivity; [apply Permutation_flat_map; exact Hp|]. reflexivity. }
       destruct e as [i|[its|cs]]; cbn [esize] in Hsz.
       + (* an item leaves the queue: it is emitted with its key *)
-        destruct (IH q' Hq') as (l & Hl & Hperm & Hem & Hs); [lia|].
+        destruct (IH q' Hi' Hq') as (l & Hl & Hperm & Hem & Hs); [lia|].
         rewrite Hl. exists ((i, k) :: l). split; [reflexivity|]. split; [|split].
         * cbn [map fst]. rewrite Hitems. cbn [under app]. now apply perm_skip.
         * constructor; [exact He | exact Hem].
@@ -203,24 +209,24 @@ Section KnnProofs.
           pose proof (e_ok_under ke _ (Hq' ke Hke) Hu). lia.
       + (* a leaf: its items enter the queue with their own distances *)
         assert (Hok2 : Forall e_ok (push_items q' its)).
-        { unfold Knn.push_items. apply Forall_push_all; [exact Hq'|].
+        { unfold Knn.push_items. apply Forall_push_all; [exact Hi'|exact Hq'|].
           rewrite Forall_forall. intros ke Hke. apply in_map_iff in Hke. destruct Hke as (ri & <- & _).
           reflexivity. }
-        destruct (IH (push_items q' its) Hok2) as (l & Hl & Hperm & Hem & Hs).
-        { rewrite qsize_push_items. cbn [tsize] in Hsz. lia. }
+        destruct (IH (push_items q' its) (proj1 (push_all_perm _ _ Hi')) Hok2) as (l & Hl & Hperm & Hem & Hs).
+        { rewrite (qsize_push_items _ _ Hi'). cbn [tsize] in Hsz. lia. }
         exists l. split; [exact Hl|]. split; [|split; assumption].
-        rewrite Hperm, q_items_push_items, Hitems. cbn [under items_of]. apply Permutation_app_comm.
+        rewrite Hperm, (q_items_push_items _ _ Hi'), Hitems. cbn [under items_of]. apply Permutation_app_comm.
       + (* an inner node: its children enter the queue with the key of their rectangle *)
         assert (Hok2 : Forall e_ok (push_children q' cs)).
-        { unfold Knn.push_children. apply Forall_push_all; [exact Hq'|].
+        { unfold Knn.push_children. apply Forall_push_all; [exact Hi'|exact Hq'|].
           destruct He as [Hlb _]. inversion Hlb as [|? Hcs]; subst.
           rewrite Forall_forall in *. intros ke Hke. apply in_map_iff in Hke. destruct Hke as (rc & <- & Hrc).
           destruct (Hcs rc Hrc) as [H1 H2]. split; assumption. }
-        destruct (IH (push_children q' cs) Hok2) as (l & Hl & Hperm & Hem & Hs).
-        { pose proof (qsize_push_children q' cs). lia. }
+        destruct (IH (push_children q' cs) (proj1 (push_all_perm _ _ Hi')) Hok2) as (l & Hl & Hperm & Hem & Hs).
+        { pose proof (qsize_push_children q' cs Hi'). lia. }
         exists l. split; [exact Hl|]. split; [|split; assumption].
-        rewrite Hperm, q_items_push_children, Hitems. cbn [under]. apply Permutation_app_comm.
-    - apply Hnone in E. subst q. exists []. repeat split; constructor.
+        rewrite Hperm, (q_items_push_children _ _ Hi'), Hitems. cbn [under]. apply Permutation_app_comm.
+    - apply (Hnone _ Hi) in E. subst q. exists []. repeat split; constructor.
   Qed.
 
   (* the caller's iterator sees exactly that order, until it says stop *)
@@ -266,19 +272,22 @@ Section KnnProofs.
   Hypothesis Hnn : forall i, (0 <= d i)%Z.   (* distances are not negative (the root's key is 0) *)
 
   Lemma start_perm root :
+    qinv (start_queue qpush root) /\
     Permutation (start_queue qpush root) (match root with None => [] | Some t => [(0%Z, QNode t)] end).
-  Proof. destruct Hq as [Hpush _]. destruct root as [t|]; cbn [start_queue]; [apply Hpush | reflexivity]. Qed.
+  Proof.
+    destruct Hq as (H0 & Hpush & _). destruct root as [t|]; cbn [start_queue]; [apply (Hpush _ _ H0) | split; [exact H0|reflexivity]].
+  Qed.
 
   Lemma start_ok root : root_ok root -> Forall e_ok (start_queue qpush root).
   Proof.
-    intros H. eapply Permutation_Forall; [symmetry; apply start_perm|].
+    intros H. eapply Permutation_Forall; [symmetry; apply (proj2 (start_perm root))|].
     destruct root as [t|]; cbn [root_ok] in *; [|constructor].
     constructor; [|constructor]. split; [exact H|]. intros i _. apply Hnn.
   Qed.
 
   Lemma start_items root : Permutation (q_items (start_queue qpush root)) (root_items root).
   Proof.
-    rewrite (q_items_perm _ _ (start_perm root)). destruct root; cbn; [now rewrite app_nil_r | reflexivity].
+    rewrite (q_items_perm _ _ (proj2 (start_perm root))). destruct root; cbn; [now rewrite app_nil_r | reflexivity].
   Qed.
 
   Theorem knn_sorted root :
@@ -287,7 +296,7 @@ Section KnnProofs.
               Permutation (map fst l) (root_items root) /\ emitted_ok l /\ dist_sorted l.
   Proof.
     intros H. unfold knn.
-    destruct (knn_order_spec (S (qsize (start_queue qpush root))) (start_queue qpush root) (start_ok _ H)) as (l & H1 & H2 & H3 & H4); [lia|].
+    destruct (knn_order_spec (S (qsize (start_queue qpush root))) (start_queue qpush root) (proj1 (start_perm root)) (start_ok _ H)) as (l & H1 & H2 & H3 & H4); [lia|].
     exists l. split; [exact H1|]. split; [|auto]. rewrite H2. apply start_items.
   Qed.
 
@@ -393,7 +402,8 @@ Section KnnQuery.
   Hypothesis Hnn : forall i, (0 <= d i)%Z.
   Variable qpush : @queue I R -> @qnode I R -> @queue I R.
   Variable qpop : @queue I R -> option (@qnode I R * @queue I R).
-  Hypothesis Hq : queue_ok qpush qpop.
+  Variable qinv : @queue I R -> Prop.
+  Hypothesis Hq : queue_ok qinv qpush qpop.
   Let all : I * Z -> bool := fun _ => true.
 
   (* LIMIT k, no radius, no filters: k items, none of the others is closer than any of them *)
@@ -407,7 +417,7 @@ Section KnnQuery.
       (forall x y, In x res -> In y (skipn (N.to_nat k) l) -> (snd x <= snd y)%Z).
   Proof.
     intros Hok Hk Hm.
-    destruct (knn_sorted d lb qpush qpop Hq Hnn root Hok) as (l & Hl & Hp & He & Hs).
+    destruct (knn_sorted d lb qinv qpush qpop Hq Hnn root Hok) as (l & Hl & Hp & He & Hs).
     exists l. rewrite (nearby_query_page d lb qpush qpop all root max_dist 0%N k l Hl).
     assert (Estop : forall e : I * Z, radius_stop max_dist e = (fun _ => false) e).
     { intros e. unfold radius_stop. destruct (0 <? max_dist)%Z eqn:E; [lia|reflexivity]. }
@@ -438,7 +448,7 @@ Section KnnQuery.
        nearby_query d lb qpush qpop all root r 0 limit = Done (filter (fun e => (snd e <=? r)%Z) l, 0%N)).
   Proof.
     intros Hok Hr.
-    destruct (knn_sorted d lb qpush qpop Hq Hnn root Hok) as (l & Hl & Hp & He & Hs).
+    destruct (knn_sorted d lb qinv qpush qpop Hq Hnn root Hok) as (l & Hl & Hp & He & Hs).
     exists l. split; [exact Hl|].
     assert (Hu : unlimited all (radius_stop r) l = filter (fun e => (snd e <=? r)%Z) l).
     { unfold unlimited.
